@@ -4,16 +4,16 @@ CONSTANTS
   PtrIds = {3}
   TTLs = {0, 1, 120}
   Steps = {1000, 1001, 10000}
-  MaxEvents = 3
+  MaxEvents = 2
   MaxTicks = 3
   MaxItems = 2
   PurgeNotifies = TRUE
-  Fixed = FALSE
+  Fixed = TRUE
 SPECIFICATION Spec
 INVARIANT Refines
 INVARIANT NoEarlyPurge
 INVARIANT LiveMatches
 INVARIANT Alternates
-VIEW view
 CONSTRAINT Bound
+CONSTRAINT EmitBehaviour
 CHECK_DEADLOCK FALSE
